@@ -92,7 +92,14 @@ def execute(cfg, prefix):
     spec, producers, plan = cfg
     _set_points()
     ch = scheddfs.Chooser(prefix)
-    sc = scenario.Scenario(CFG, chooser=ch, max_socks=1)
+    cfg_ = CFG
+    if "sctp" in plan:
+        # the connection is an SCTP association: the I/O loop writes through sctp_send (a branch of its own in the send path)
+        import copy as _copy
+        cfg_ = _copy.deepcopy(CFG)
+        cfg_["node"]["transport"] = "sctp"
+        plan = tuple(x for x in plan if x != "sctp")
+    sc = scenario.Scenario(cfg_, chooser=ch, max_socks=1)
     try:
         nw = sc.start()
         sc.apply(("accept",))
@@ -331,6 +338,10 @@ def configs(tier):
     out.append(((("ok", "badhdr", "ok"), 1, ()), 1))
     out.append(((("ok", "ok"), 1, ("pin",)), 2))
     # a remainder is pending behind a partial write when the next messages are queued and the peer reads again
+    out.append(((("ok", "ok"), 1, ("sctp",)), 1))
+    out.append(((("ok", "ok"), 1, ("sctp", "half")), 2))
+    out.append(((("ok", "bad", "ok"), 1, ("sctp", "1", "EAGAIN")), 1))
+    out.append(((("ok", "ok"), 2, ("sctp", "EINTR")), 1))
     out.append(((("ok", "ok"), 1, ("stall",)), 2))
     out.append(((("ok", "ok", "ok"), 1, ("stall", "1")), 1 if tier != "thorough" else 2))
     out.append(((("ok", "bad", "ok"), 1, ("stall",)), 1 if tier != "thorough" else 2))
